@@ -194,7 +194,17 @@ class UdpInverterProtocol(InverterProtocol, asyncio.DatagramProtocol):
 
     async def send_request(self, command: ProtocolCommand) -> Future:
         """Send message via transport"""
+        # the lock is held for the whole request including its retransmissions, the retry counter belongs to it
         await self._ensure_lock().acquire()
+        try:
+            return await self._send_request_with_retries(command)
+        finally:
+            if self._lock and self._lock.locked():
+                self._lock.release()
+            if not self.keep_alive:
+                self._close_transport()
+
+    async def _send_request_with_retries(self, command: ProtocolCommand) -> Future:
         try:
             await self._connect()
             response_future = asyncio.get_running_loop().create_future()
@@ -204,21 +214,14 @@ class UdpInverterProtocol(InverterProtocol, asyncio.DatagramProtocol):
         except asyncio.CancelledError:
             if self._retry < self.retries:
                 self._retry += 1
-                if self._lock and self._lock.locked():
-                    self._lock.release()
                 if not self.keep_alive:
                     self._close_transport()
-                return await self.send_request(command)
+                return await self._send_request_with_retries(command)
             return self._max_retries_reached()
         except OSError:
             # the request ends with a socket error (e.g. the socket for a retry could not be created)
             self._retry = 0
             raise
-        finally:
-            if self._lock and self._lock.locked():
-                self._lock.release()
-            if not self.keep_alive:
-                self._close_transport()
 
     def _send_request(self, command: ProtocolCommand, response_future: Future) -> None:
         """Send message via transport"""
@@ -352,7 +355,15 @@ class TcpInverterProtocol(InverterProtocol, asyncio.Protocol):
 
     async def send_request(self, command: ProtocolCommand) -> Future:
         """Send message via transport"""
+        # the lock is held for the whole request including its retransmissions, the retry counter belongs to it
         await self._ensure_lock().acquire()
+        try:
+            return await self._send_request_with_retries(command)
+        finally:
+            if self._lock and self._lock.locked():
+                self._lock.release()
+
+    async def _send_request_with_retries(self, command: ProtocolCommand) -> Future:
         try:
             await asyncio.wait_for(self._connect(), timeout=5)
             response_future = asyncio.get_running_loop().create_future()
@@ -364,22 +375,15 @@ class TcpInverterProtocol(InverterProtocol, asyncio.Protocol):
                 if self._timer:
                     logger.debug("Connection broken error.")
                 self._retry += 1
-                if self._lock and self._lock.locked():
-                    self._lock.release()
                 self._close_transport()
-                return await self.send_request(command)
+                return await self._send_request_with_retries(command)
             return self._max_retries_reached()
         except (ConnectionRefusedError, TimeoutError, OSError, asyncio.TimeoutError):
             if self._retry < self.retries:
                 logger.debug("Connection refused error.")
                 self._retry += 1
-                if self._lock and self._lock.locked():
-                    self._lock.release()
-                return await self.send_request(command)
+                return await self._send_request_with_retries(command)
             return self._max_retries_reached()
-        finally:
-            if self._lock and self._lock.locked():
-                self._lock.release()
 
     def _send_request(self, command: ProtocolCommand, response_future: Future) -> None:
         """Send message via transport"""
